@@ -3,13 +3,15 @@
    (b) the reference semantics Model/SqlSpec.v, i.e. the property itself (spec_ok).
    Evaluated by vm_compute; definitions only. *)
 From Coq Require Import ZArith List Bool.
-From TV Require Export Model.SqlSpec Model.PredImpl.
+From TV Require Export Model.SqlSpec Model.PredImpl Model.PredClass.
 Import ListNotations.
 Open Scope Z_scope.
 
+(* sty: how the harness printed e.  0 = fully parenthesised; 1 = `NOT x <op> y` printed without
+   parentheses where x is an atom (standard SQL reads NOT (x <op> y); see PredImpl.reparse_bare) *)
 Inductive case :=
-| Where (t : table) (e : expr) (o : qout)     (* SELECT * FROM t WHERE (e) *)
-| Select (t : table) (e : expr) (o : qout).   (* SELECT id, (e) FROM t *)
+| Where (sty : Z) (t : table) (e : expr) (o : qout)     (* SELECT * FROM t WHERE (e) *)
+| Select (sty : Z) (t : table) (e : expr) (o : qout).   (* SELECT id, (e) FROM t *)
 
 Fixpoint zl_eqb (a b : list Z) : bool :=
   match a, b with
@@ -30,8 +32,8 @@ Definition mout_is (m : mout) (o : qout) : bool :=
 (* does the model reproduce the implementation on this case? *)
 Definition model_agrees (c : case) : bool :=
   match c with
-  | Where t e o => mout_is (model_where e t) o
-  | Select t e o => mout_is (model_select e t) o
+  | Where sty t e o => mout_is (model_where (parsed sty e) t) o
+  | Select sty t e o => mout_is (model_select (parsed sty e) t) o
   end.
 
 (* what the property demands *)
@@ -44,11 +46,16 @@ Definition spec_vals (e : expr) (t : table) : list Z := map (fun r => code_of_tv
    The property speaks only where the reference semantics is defined on every row. *)
 Definition spec_ok (c : case) : bool :=
   match c with
-  | Where t e o => if defined_on e t then qout_eqb o (QRows (spec_rows e t)) else true
-  | Select t e o => if defined_on e t then qout_eqb o (QVals (spec_vals e t)) else true
+  | Where _ t e o => if defined_on e t then qout_eqb o (QRows (spec_rows e t)) else true
+  | Select _ t e o => if defined_on e t then qout_eqb o (QVals (spec_vals e t)) else true
   end.
 
-Definition known_class (c : case) : Z := 0.
+(* the recorded finding class of the case (Model/PredClass.v); 0 = none *)
+Definition known_class (c : case) : Z :=
+  match c with
+  | Where sty t e _ => cls_where sty e t
+  | Select sty t e _ => cls_select sty e t
+  end.
 
 Fixpoint failures_from (i : Z) (cs : list case) : list (Z * bool * bool * Z) :=
   match cs with
